@@ -1,0 +1,14 @@
+//go:build verif
+// +build verif
+
+package space
+
+// VerifImpls exposes the three kernel implementations individually, bypassing
+// the cpuid dispatch, for the verification harness.
+func VerifImpls() map[string]SpaceImpl {
+	return map[string]SpaceImpl{
+		"native": nativeSpaceImpl{},
+		"sse":    sseSpaceImpl{},
+		"avx":    avxSpaceImpl{},
+	}
+}
